@@ -324,6 +324,12 @@ R("R40 completion: one-element list literals and a start variable", (EXH, """   
     budget_allocations = [start]
 """))
 
+# ---------------- the fourth round of independent rewrites (copies in tools/pyctrl_patches) ----------------
+R("H4-1 independent rewrite rules4/1 (greedy fast path)", ("PATCH", "/verif/tools/pyctrl_patches/rules4-1.diff", None))
+R("H4-2 independent rewrite rules4/2 (phragmen helpers)", ("PATCH", "/verif/tools/pyctrl_patches/rules4-2.diff", None))
+R("H4-3 independent rewrite rules4/3 (exhaustion)", ("PATCH", "/verif/tools/pyctrl_patches/rules4-3.diff", None))
+R("H4-4 independent rewrite rules4/4 (popularity: [0] * len, reused loop variable, zip comprehension)", ("PATCH", "/verif/tools/pyctrl_patches/rules4-4.diff", None))
+
 # ---------------- breaking edits ----------------
 B("B01 increase: feasibility tested against the increased budget", (EXH, "if not instance.is_feasible(outcome):", "if not current_instance.is_feasible(outcome):"))
 B("B02 increase: < for <= in the while condition", (EXH, "while current_instance.budget_limit <= budget_bound:", "while current_instance.budget_limit < budget_bound:"))
